@@ -547,6 +547,10 @@ func mixedScenarios(tier string, f func(r *mrepo.Repo, special map[string]mrepo.
 func c01Worker(sh *explore.Shard) {
 	n := newNumRun(sh, "C01", censusKeys)
 	var idx int64
+	idx++
+	if sh.Mine(idx) {
+		c01NoRefs(sh)
+	}
 	mixedScenarios(sh.Tier, func(r *mrepo.Repo, special map[string]mrepo.ID, desc string) bool {
 		idx++
 		if !sh.Mine(idx) {
@@ -596,6 +600,48 @@ func c01Worker(sh *explore.Shard) {
 		return true
 	})
 	n.end()
+}
+
+// c01NoRefs: a repository without any reference and with a detached HEAD,
+// measured by the real binary with real git and no argument at all: nothing is
+// selected, so everything must be zero (HEAD is not a root).
+func c01NoRefs(sh *explore.Shard) {
+	r := mrepo.New()
+	lv := gen.AddLeaves(r)
+	t := r.AddTree([]mrepo.Entry{{Mode: 0o100644, Name: "a", Child: lv.BlobC}})
+	c0 := r.AddCommit(mrepo.CommitSpec{Tree: t, Time: gen.T0, Message: "c0\n"})
+	c1 := r.AddCommit(mrepo.CommitSpec{Tree: t, Parents: []mrepo.ID{c0}, Time: gen.T0 + 100, Message: "c1\n"})
+	r.Head = string(c1)
+	dir := scratch("c01n")
+	defer os.RemoveAll(dir)
+	gd := filepath.Join(dir, "repo.git")
+	if err := realgit.Materialise(r, gd); err != nil {
+		return
+	}
+	for _, args := range [][]string{{"--json", "--no-progress"}, {"--json", "--no-progress", "--branches"}, {"--json", "--no-progress", "--no-tags"}} {
+		res := cli.Run(gd, "", nil, 60*time.Second, args...)
+		sh.C.Evals++
+		sh.C.Nontrivial++
+		sh.C.Add("cli_real_runs", 1)
+		mk := func(msg string) {
+			sh.C.Violate(explore.Violation{Property: "C01", Class: "cli-mismatch", Msg: fmt.Sprintf("repository without references, detached HEAD, args %v: %s", args, msg),
+				Case: caseJSON(sh.Index(), map[string]any{"args": args}), Detail: r.Describe()})
+		}
+		if res.Exit != 0 {
+			mk(fmt.Sprintf("exit %d: %s", res.Exit, tailBytes(res.Stderr, 300)))
+			continue
+		}
+		nums, _, err := parseV1(res.Stdout)
+		if err != nil {
+			mk("invalid JSON")
+			continue
+		}
+		for _, k := range censusKeys {
+			if nums[k] != 0 {
+				mk(fmt.Sprintf("%s = %d although no root is selected (HEAD is not a root)", k, nums[k]))
+			}
+		}
+	}
 }
 
 func keys(m map[string]bool) []string {
@@ -1026,7 +1072,7 @@ func init() {
 		"listing orders explored are all orders satisfying the one guarantee git-sizer relies on (no commit before all of its listed children)",
 	}
 	Registry["C01"] = &Check{Level: "model_checking", Worker: c01Worker, QuickBudget: 50 * time.Second, ThoroughBudget: 8 * time.Minute,
-		Rule: "bounded-exhaustive product of tree DAGs (2 trees) x 4 commit shapes x 5 tag configurations with unreachable noise and detached HEAD; for each every subset of references as selection x ROOT in {none, commit, tree, blob, tag+commit}; scanned in-process by the real CollectReferences+ScanRepositoryUsingGraph under git's order and one deviation; census keys compared with the independent oracle. non-trivial = a (repository, selection) pair with at least one root", Assumptions: asm}
+		Rule: "bounded-exhaustive product of tree DAGs (2 trees) x 4 commit shapes x 5 tag configurations with unreachable noise and detached HEAD; for each every subset of references as selection x ROOT in {none, commit, tree, blob, tag+commit}; scanned in-process by the real CollectReferences+ScanRepositoryUsingGraph under git's order and one deviation; census keys compared with the independent oracle; a repository without any reference and with a detached HEAD measured by the real binary with no selection must report zero. non-trivial = a (repository, selection) pair with at least one root", Assumptions: asm}
 	Registry["C02"] = &Check{Level: "model_checking", Worker: c02Worker, QuickBudget: 50 * time.Second, ThoroughBudget: 8 * time.Minute,
 		Rule: "all commit DAGs (n<=4) x all message-length vectors (2 lengths quick, 4 with ties thorough) x all linear extensions; blob-size vectors over {0,3,9} x 3 layouts x all tree/blob listing permutations (cap 720); blob-only/tree-only root sets; maxima compared with the oracle. non-trivial = scenario with more than one listing order", Assumptions: asm}
 	Registry["C03"] = &Check{Level: "model_checking", Worker: c03Worker, QuickBudget: 50 * time.Second, ThoroughBudget: 10 * time.Minute,
